@@ -115,6 +115,12 @@ Definition run_c17 (cmd : Z) (a : io) : io :=
       | Some ops => answer (Some (fold_left (fun m o => spec_op o m) ops (matrix_of (skipn (S n) a))))
       end
   | 1718 => answer (rename_frame_unfixed g0 g1 (matrix_of (skipn 2 a)))   (* rename_frame as in /repo before the proposed fix *)
+  | 1719 =>                                                         (* as 1712 with rename_frame_unfixed *)
+      let n := Z.to_nat (nthz g0 0) in
+      match ops_of (firstn n (skipn 1 a)) with
+      | None => [[-999]]
+      | Some ops => answer (run_ops_unfixed ops (matrix_of (skipn (S n) a)))
+      end
   | 1721 => answer (Some (delete_zero_signals_unfixed (matrix_of a)))    (* before 780371c *)
   | 1722 => answer (Some (delete_obsolete_defines_unfixed (matrix_of a)))(* before 9a3e727 *)
   | _ => [[-999]]
